@@ -83,7 +83,7 @@ def run(ctx):
                 "the surviving definitions (queries + 3 follow-up assignments); non-trivial = a definition was replaced or removed; "
                 "distinct by op list")
     ctx.scale_if_changed()
-    proof_ok = vlib.standard_proof_part(ctx, "props/C03.v", extra_targets=["run/RunManager.vo", "proofs/TasksSrc.vo", "proofs/TasksSrcData.vo", "proofs/TasksSrcRefresh.vo"], translators=["tasks"])
+    proof_ok = vlib.standard_proof_part(ctx, "props/C03.v", extra_targets=["run/RunManager.vo", "proofs/TasksSrc.vo", "proofs/TasksSrcData.vo", "proofs/TasksSrcRefresh.vo", "proofs/TasksSrcSorting.vo"], translators=["tasks"])
     cases = CORPUS + gen_cases(ctx, ctx.pick(250, 4000))
     obs = mc.run_impl_cases(cases)
     # the model does not interpret "freshcheck": compare on the history without it
